@@ -87,8 +87,13 @@ class World:
     TICK = 1.0
     P0 = 100.0
 
-    def __init__(self, mode, monitors, tick=1.0, chunk=None, index=False, shares=None):
+    def __init__(self, mode, monitors, tick=1.0, chunk=None, index=False, shares=None, shape=None):
         self.mode = mode  # "cont" | "free"
+        # shape of the order objects handed to the market: None = built with the library's constants and plain bools;
+        # "copied" = every order went through copy.deepcopy (its kind EQUALS the library constant without being it: an
+        # agent submitting copies of a template, an order that crossed a process boundary); "copied_odd" = every second
+        # one; "npside" / "intside" = the side flag is numpy.bool_ / 0-1 (an agent computing the side with numpy)
+        self.shape = shape
         self.lg = RecLogger()
         self.comps = []
         if index:
@@ -222,12 +227,21 @@ class World:
             # every order comes from a different agent, with agent ids DEcreasing in submission order
             # (priority and prices must not depend on who submitted)
             aid = 1000 - len(self.entries)
+            side = op[1]
+            if self.shape == "npside":
+                import numpy
+                side = numpy.bool_(side)
+            elif self.shape == "intside":
+                side = int(side)
             if k == "L":
-                o = Order(aid, 0, op[1], LIMIT_ORDER, op[3], price=float(op[2]), ttl=op[4])
+                o = Order(aid, 0, side, LIMIT_ORDER, op[3], price=float(op[2]), ttl=op[4])
                 sub_price = float(op[2])
             else:
-                o = Order(aid, 0, op[1], MARKET_ORDER, op[2], ttl=op[3])
+                o = Order(aid, 0, side, MARKET_ORDER, op[2], ttl=op[3])
                 sub_price = None
+            if self.shape == "copied" or (self.shape == "copied_odd" and len(self.entries) % 2 == 1):
+                import copy
+                o = copy.deepcopy(o)
             sub.order = o
             self._snap(sub)
             n0 = len(self.lg.got)
@@ -510,6 +524,11 @@ SEED_KW = {
     # tick sizes that are not one digit times a power of ten
     # a market whose outstandingShares (an index weight) is smaller than the volumes traded on it
     "shares1": (dict(shares=1), [L(B, 99, 2), L(S, 101, 3)]),
+    # order objects of other shapes (see World.__init__)
+    "copied_orders": (dict(shape="copied"), []),
+    "copied_odd_orders": (dict(shape="copied_odd"), []),
+    "npside_orders": (dict(shape="npside"), []),
+    "intside_orders": (dict(shape="intside"), []),
     "quartertick": (dict(tick=0.25), []),
     "tick2_5": (dict(tick=2.5), []),
     # the market under test is an IndexMarket (two components; op XC stops / restarts a component)
